@@ -38,6 +38,7 @@ MODULE_OF = {
     'impl_convert.rs': 'impl_convert',
     'impl_fmt.rs': 'impl_fmt',
 }
+EXTRA_MODULES = ['clients']
 
 
 class GenError(Exception):
@@ -874,7 +875,7 @@ def render(em, prelude_text, shim_text, module_prologue):
             lo = cur_line()
             out.append(text)
             line_map.append((lo, cur_line() - 1, meta))
-        allmods = set(tree) | set(MODULE_OF.values())
+        allmods = set(tree) | set(MODULE_OF.values()) | set(m for m in EXTRA_MODULES if m in module_prologue)
         if path:
             children = sorted(m for m in allmods if m and '::' in m and m.rsplit('::', 1)[0] == path)
         else:
